@@ -15,6 +15,7 @@ import (
 	"sort"
 	"sync"
 	"sync/atomic"
+	"time"
 	"testing"
 
 	nt "github.com/mit-pdos/go-nfsd/nfstypes"
@@ -222,6 +223,16 @@ func concAckProperty(t *rapid.T, prop string, unstableBias bool) {
 	s := StartSrv(d, unstable, false)
 	api := s.API()
 	root := s.RootFH()
+	// schedule shaping: the device is slow at writing the journal's header block (the moment a flush takes
+	// effect), so that other clients' unstable writes are acknowledged while a flush is under way
+	if delay := time.Duration(pick(t, []int{0, 0, 300, 1000, 3000}, "headerdelay")) * time.Microsecond; delay > 0 {
+		d.SetHook(func(kind string, addr uint64) {
+			if kind == "w" && addr == 0 {
+				time.Sleep(delay)
+			}
+		})
+		St.Class("cases_with_a_slow_journal_header_write")
+	}
 	nclients := rapid.IntRange(2, 4).Draw(t, "clients")
 	nrefused := rapid.IntRange(0, 30).Draw(t, "refused")
 	nbig := rapid.IntRange(0, 4).Draw(t, "bigwrites")
@@ -433,4 +444,155 @@ func TestC01ConcAck(t *testing.T) {
 
 func TestC07ConcAck(t *testing.T) {
 	rapid.Check(t, func(t *rapid.T) { concAckProperty(t, "C07", true) })
+}
+
+// COMMIT windows, enumerated: client A's COMMIT of file a is held at its k-th device write (the journal's data
+// blocks, its header block, the barrier's neighbours) while client B completes one or two UNSTABLE writes; then
+// A's COMMIT is released and returns, and B sends its COMMIT.  When B's COMMIT has been acknowledged, the device
+// as it is at that moment - cut there, and with all un-barriered writes lost - must hold everything both clients
+// wrote.  (What is in flight while a flush is under way is exactly what a "nothing to flush" shortcut forgets.)
+func TestC07CommitWindow(t *testing.T) {
+	shard, nshards := EnvInt("VERIF_SHARD", 0), EnvInt("VERIF_NSHARDS", 1)
+	St.Exhaustive(true)
+	nrun, nheld := 0, 0
+	idx := -1
+	for k := 0; k < 8; k++ {
+		for variant := 0; variant < 4; variant++ {
+			idx++
+			if idx%nshards != shard {
+				continue
+			}
+			d := NewDisk(1540 + 600)
+			s := StartSrv(d, true, false)
+			api := s.API()
+			root := s.RootFH()
+			mk := func(name string) nt.Nfs_fh3 {
+				return api.NFSPROC3_CREATE(nt.CREATE3args{Where: nt.Diropargs3{Dir: root, Name: nt.Filename3(name)}}).Resok.Obj.Handle
+			}
+			fa, fb := mk("a"), mk("b")
+			want := map[string][]byte{"a": nil, "b": nil}
+			put := func(name string, fh nt.Nfs_fh3, off uint64, tag uint32, n int) nt.Nfsstat3 {
+				data := patternData(tag, uint64(n))
+				r := api.NFSPROC3_WRITE(nt.WRITE3args{File: fh, Offset: nt.Offset3(off), Count: nt.Count3(n), Stable: nt.UNSTABLE, Data: append([]byte{}, data...)})
+				if r.Status == nt.NFS3_OK {
+					buf := want[name]
+					if uint64(len(buf)) < off+uint64(n) {
+						buf = append(buf, make([]byte, off+uint64(n)-uint64(len(buf)))...)
+					}
+					copy(buf[off:], data)
+					want[name] = buf
+				}
+				return r.Status
+			}
+			var hist []string
+			fail := func(format string, a ...any) {
+				msg := fmt.Sprintf(format, a...)
+				St.Violation("C07", msg, map[string]any{"history": hist, "held_at_device_write": k, "variant": variant})
+				t.Fatalf("C07: %s\n%v", msg, hist)
+			}
+			if put("a", fa, 0, 1, 5000) != nt.NFS3_OK {
+				t.Fatalf("harness: setup write failed")
+			}
+			hist = append(hist, "CREATE a, b; A: WRITE a off=0 len=5000 UNSTABLE")
+			// hold the k-th device write issued while A's COMMIT is in flight
+			var inCommit, nwrites int32
+			reached, release := make(chan struct{}), make(chan struct{})
+			var once sync.Once
+			held := false
+			d.SetHook(func(kind string, addr uint64) {
+				if kind != "w" || atomic.LoadInt32(&inCommit) == 0 {
+					return
+				}
+				if int(atomic.AddInt32(&nwrites, 1))-1 != k {
+					return
+				}
+				once.Do(func() {
+					held = true
+					close(reached)
+					select {
+					case <-release:
+					case <-time.After(200 * time.Millisecond):
+					}
+				})
+			})
+			var stA, stB nt.Nfsstat3
+			doneA := make(chan struct{})
+			o := Guard(30*time.Second, func() {
+				go func() {
+					defer close(doneA)
+					atomic.StoreInt32(&inCommit, 1)
+					stA = api.NFSPROC3_COMMIT(nt.COMMIT3args{File: fa}).Status
+					atomic.StoreInt32(&inCommit, 0)
+					once.Do(func() { close(reached) })
+				}()
+				<-reached
+				// B, while A's flush is under way
+				switch variant {
+				case 0:
+					put("b", fb, 0, 2, 5000)
+					hist = append(hist, "B (during A's COMMIT): WRITE b off=0 len=5000 UNSTABLE")
+				case 1:
+					put("b", fb, 0, 2, 100)
+					put("b", fb, 8192, 3, 4096)
+					hist = append(hist, "B (during A's COMMIT): WRITE b off=0 len=100 UNSTABLE; WRITE b off=8192 len=4096 UNSTABLE")
+				case 2:
+					put("a", fa, 8192, 2, 3000)
+					put("b", fb, 100, 3, 10)
+					hist = append(hist, "B (during A's COMMIT): WRITE a off=8192 len=3000 UNSTABLE; WRITE b off=100 len=10 UNSTABLE")
+				case 3:
+					put("b", fb, 3*4096, 2, 2*4096)
+					hist = append(hist, "B (during A's COMMIT): WRITE b off=12288 len=8192 UNSTABLE")
+				}
+				close(release)
+				<-doneA
+				stB = api.NFSPROC3_COMMIT(nt.COMMIT3args{File: fb}).Status
+				if variant == 2 && stB == nt.NFS3_OK {
+					stB = api.NFSPROC3_COMMIT(nt.COMMIT3args{File: fa}).Status
+				}
+			})
+			d.SetHook(nil)
+			at := d.Mark()
+			hist = append(hist, fmt.Sprintf("A: COMMIT a (held at its device write #%d: %v) -> %d; then B: COMMIT -> %d", k, held, stA, stB))
+			if o.Slow || o.Bad() {
+				s.Stop()
+				continue
+			}
+			s.Stop()
+			if stA != nt.NFS3_OK || stB != nt.NFS3_OK {
+				fail("COMMIT failed: %d %d", stA, stB)
+			}
+			trace := d.Trace()
+			for _, v := range Variants(trace, at, 0, 0) {
+				if v.Name != "cut" && v.Name != "drop-all-pending" {
+					continue
+				}
+				img := ImageOf(d.size, d.init, trace, at, v.Drop)
+				img.SetRecord(false)
+				var got caModel
+				var err error
+				ro := Guard(30*time.Second, func() {
+					s2 := StartSrv(img, true, false)
+					defer s2.Stop()
+					got, err = caRead(s2.API(), s2.RootFH())
+				})
+				if ro.Slow {
+					continue
+				}
+				if ro.Bad() || err != nil {
+					fail("recovery from the device image taken when B's COMMIT was acknowledged (%s): %v %v", v.Name, ro, err)
+				}
+				if diff := caDiff(got, caModel{"a": want["a"], "b": want["b"]}); diff != "" {
+					fail("both COMMITs were acknowledged, but in the image of the device at that moment (%s) %s", v.Name, diff)
+				}
+				St.Eval(1)
+			}
+			nrun++
+			if held {
+				nheld++
+				St.NT(Hash("commitwindow", k, variant))
+			}
+		}
+	}
+	St.ClassN("commit_windows_enumerated", nrun)
+	St.ClassN("commit_windows_in_which_the_flush_was_held", nheld)
 }
